@@ -36,7 +36,7 @@ fn spec(t: Tier) -> Spec {
     Spec {
         id: "C02",
         level: "exploration",
-        rule: format!("every ordered forest with <= {full} nodes over leaf labels {:?} (and <= {red} nodes over {:?}) is materialised under r/ on tmpfs and walked by find_main under every configuration: follow in {{-P,-H,-L,-follow,-H -follow}} x (mindepth,maxdepth) in {{absent,0,1,2,3}}^2 (incl. min>max) x -depth on/off x -sorted on/off x 8 starting-point lists (dir, link to dir, dangling link, file, link to file, the same root twice, two roots, missing+dir); the -print0 output must equal the reference walker's visit list (sequence with -sorted, multiset + parent/child order without); diagnostics required for cycle-closing links and missing roots; non-trivial = (tree,config) whose expected visit list differs from the plain -P listing of r; scale slice: a chain 12 directories deep (file at every level, a link to an outside directory at level 5, a link back to the top at level 9), a directory of 300 files and 20 sub-directories, and link chains (l1 -> l2 -> l3 -> directory, k1 -> k2 -> k1), each under -P/-H/-L x mindepth in {{absent,0,3,5,11,12,13,2^32,2^32+3}} x maxdepth in {{absent,0,4,11,12,13,2^32,2^32+4,2^63-1}} x -depth on/off from r and lr; low-descriptor slice: a chain 40 directories deep walked by the binary under RLIMIT_NOFILE = 16 (-P/-L, -depth on/off, -sorted on/off); fault slice: trees with one or two mode-000 directories walked by the hooks-off binary running as uid 65534",
+        rule: format!("every ordered forest with <= {full} nodes over leaf labels {:?} (and <= {red} nodes over {:?}) is materialised under r/ on tmpfs and walked by find_main under every configuration: follow in {{-P,-H,-L,-follow,-H -follow}} x (mindepth,maxdepth) in {{absent,0,1,2,3}}^2 (incl. min>max) x -depth on/off x -sorted on/off x 8 starting-point lists (dir, link to dir, dangling link, file, link to file, the same root twice, two roots, missing+dir); the -print0 output must equal the reference walker's visit list (sequence with -sorted, multiset + parent/child order without); diagnostics required for cycle-closing links and missing roots; non-trivial = (tree,config) whose expected visit list differs from the plain -P listing of r; scale slice: a chain 12 directories deep (file at every level, a link to an outside directory at level 5, a link back to the top at level 9), a directory of 300 files and 20 sub-directories, and link chains (l1 -> l2 -> l3 -> directory, k1 -> k2 -> k1), each under -P/-H/-L x mindepth in {{absent,0,3,5,11,12,13,2^32,2^32+3}} x maxdepth in {{absent,0,4,11,12,13,2^32,2^32+4,2^63-1}} x -depth on/off from r and lr; low-descriptor slice: a chain 40 directories deep walked by the binary under RLIMIT_NOFILE = 16 (-P/-L, -depth on/off, -sorted on/off); fault slice: trees with one or two mode-000 directories walked by the hooks-off binary running as uid 65534; undecodable-names slice: dangling links, a directory and a link target whose names are not valid UTF-8 under -P/-H/-L x (plain, -follow, -depth, -mindepth 1): one record per entry, status 0, no diagnostic",
             LABELS.iter().map(|l| l.code()).collect::<Vec<_>>(), LABELS_REDUCED.iter().map(|l| l.code()).collect::<Vec<_>>()),
         bound: json!({"max_nodes_full_labels": full, "max_nodes_reduced_labels": red, "configs_per_tree": 5*25*2*2*8}),
         assumptions: vec![
